@@ -358,7 +358,7 @@ func (e *c22Env) checkRoot(root common.Hash) {
 }
 
 func (e *c22Env) push(parent common.Hash, raw bool) *pdbTransition {
-	ops := pdbDrawOps(e.t, e.w.State(parent), rapid.IntRange(1, 5).Draw(e.t, "nops"))
+	ops := pdbDrawOps(e.t, e.w.State(parent), rapid.IntRange(2, 6).Draw(e.t, "nops"))
 	tr := e.w.Transition(parent, ops, e.w.NextSeq(), raw)
 	if err := e.db.Update(tr.Root, tr.Parent, uint64(len(e.chain)), tr.Nodes, tr.States); err != nil {
 		e.fail("Update(%x<-%x): %v", tr.Root, tr.Parent, err)
@@ -373,7 +373,7 @@ func TestVerifC22Pathdb(t *testing.T) {
 	defer func(old int) { maxDiffLayers = old }(maxDiffLayers)
 	vs.Check(t, 1, func(rt *rapid.T) {
 		c := st.Case()
-		maxDiffLayers = rapid.SampledFrom([]int{1, 2, 4, 128, 128}).Draw(rt, "maxDiffLayers")
+		maxDiffLayers = rapid.SampledFrom([]int{1, 2, 4, 8, 128, 128, 128}).Draw(rt, "maxDiffLayers")
 		bufSize := rapid.SampledFrom([]int{0, 64 * 1024}).Draw(rt, "writeBuffer")
 		noAsync := rapid.Bool().Draw(rt, "noAsyncFlush")
 		layers := rapid.IntRange(0, 12).Draw(rt, "layers")
@@ -464,10 +464,8 @@ func TestVerifC22Pathdb(t *testing.T) {
 		nt := recreated || e.seeksOnTombstone > 0
 		c.NonTrivial(nt, strings.Join(e.trace, ";"))
 		switch {
-		case diskOnly && !buffered:
-			c.Class("stack=disk-only")
 		case diskOnly:
-			c.Class("stack=buffer+disk")
+			c.Class("stack=disk-only")
 		case buffered:
 			c.Class("stack=diffs+buffer+disk")
 		default:
